@@ -1,4 +1,927 @@
-//! C04: harness domain (stub).
+//! C04: handshake state machine and message codecs (in-process part).
+//!
+//! Drives the REAL `HandshakeStateMachine` with op sequences (pinned corpus, exhaustive small enumeration, seeded
+//! random walks) and the real message structs with valid and damaged bytes.
+//!   T c04run / c04x : model-vs-code, one observation per call (`<out>@<state>#<negotiated>`)
+//!   P c04chk        : the Spec oracle over the observed trace (connected only after the cookie proof, reply digest,
+//!                     flag intersection, layouts, bad input never connects, no panic)
+//! The clock-derived challenge (`digest::generate_challenge`) is never predicted: it is read back from the bytes
+//! `prepare_challenge_reply` returns and given to the model as the input of that `handle_challenge` op. When a
+//! challenge would be overwritten/cleared before it was read although an ack was judged against it, the harness
+//! inserts a real `prepare_challenge_reply` call (which is then part of the recorded sequence).
+use crate::canon::{hex, hexarg};
 use crate::Ctx;
+use edp_client::digest;
+use edp_client::errors::Error;
+use edp_client::flags::DistributionFlags;
+use edp_client::handshake::{Challenge, ChallengeAck, ChallengeReply, SendName, Status, StatusMessage};
+use edp_client::state_machine::HandshakeStateMachine;
+use std::panic::{catch_unwind, AssertUnwindSafe};
 
-pub fn run(_ctx: &mut Ctx) {}
+#[derive(Clone, Debug)]
+pub struct Cfg {
+    name: String,
+    cookie: String,
+    flags: u64,
+    creation: u32,
+}
+
+impl Cfg {
+    fn text(&self) -> String {
+        format!("{} {} {} {}", hexarg(self.name.as_bytes()), hexarg(self.cookie.as_bytes()), self.flags, self.creation)
+    }
+}
+
+/// one real API call
+#[derive(Clone, Debug)]
+enum Op {
+    B,
+    N,
+    S(Vec<u8>),
+    C,
+    H(Vec<u8>),
+    R,
+    A(Vec<u8>),
+    D,
+}
+
+fn eclass(e: &Error) -> &'static str {
+    match e {
+        Error::InvalidStateTransition { .. } | Error::InvalidStateMessage(_) | Error::InvalidState { .. } => "e-state",
+        Error::NodeNameTooLong { .. } => "e-name",
+        Error::InvalidHandshakeMessage(_) => "e-malformed",
+        Error::ConnectionRefused { .. } => "e-refused",
+        Error::AuthenticationFailed => "e-auth",
+        _ => "e-other",
+    }
+}
+
+const STATE_NAMES: [&str; 9] = [
+    "disconnected", "connecting", "sending_name", "awaiting_status", "awaiting_challenge",
+    "sending_challenge_reply", "awaiting_challenge_ack", "connected", "failed",
+];
+
+fn fnv32(b: &[u8]) -> u32 {
+    let mut h: u32 = 2166136261;
+    for x in b {
+        h ^= *x as u32;
+        h = h.wrapping_mul(16777619);
+    }
+    h
+}
+
+/// the real machine plus the record of what was called and observed
+struct Run {
+    cfg: Cfg,
+    m: HandshakeStateMachine,
+    toks: Vec<String>,
+    /// the same calls in the compact notation of the exhaustive stream (symbolic where the letter was symbolic)
+    ctoks: Vec<String>,
+    outs: Vec<(String, Option<Vec<u8>>)>,
+    states: Vec<String>,
+    negs: Vec<String>,
+    /// index of the token of the last successful handle_challenge whose challenge has not been read yet
+    pending: Option<usize>,
+    /// an ack was judged against the unread challenge
+    ack_since: bool,
+    /// what the harness knows (only to build interesting arguments)
+    our: Option<u32>,
+    their: Option<u32>,
+    prev_our: Option<u32>,
+    panics: u64,
+    /// real prepare_challenge_reply calls inserted only to read the clock-derived challenge back
+    probes: u64,
+}
+
+impl Run {
+    fn new(cfg: &Cfg) -> Run {
+        let m = HandshakeStateMachine::new(
+            cfg.name.clone(),
+            "peer@localhost".to_string(),
+            cfg.cookie.clone(),
+            DistributionFlags::new(cfg.flags),
+            cfg.creation,
+        );
+        Run {
+            cfg: cfg.clone(),
+            m,
+            toks: vec![],
+            ctoks: vec![],
+            outs: vec![],
+            states: vec![],
+            negs: vec![],
+            pending: None,
+            ack_since: false,
+            our: None,
+            their: None,
+            prev_our: None,
+            panics: 0,
+            probes: 0,
+        }
+    }
+
+    fn record(&mut self, tok: String, out: (String, Option<Vec<u8>>), sym: Option<String>) {
+        let c = match sym {
+            // a symbolic H token carries the same challenge placeholder as the explicit one
+            Some(c) if tok.starts_with("H:") => format!("{}:{}", c, tok.rsplit(':').next().unwrap_or("0")),
+            Some(c) => c,
+            None => tok.clone(),
+        };
+        self.ctoks.push(c);
+        self.toks.push(tok);
+        self.outs.push(out);
+        self.states.push(self.m.state().as_str().to_string());
+        self.negs.push(match self.m.negotiated_flags() {
+            None => "-".to_string(),
+            Some(f) => f.as_u64().to_string(),
+        });
+    }
+
+    fn unit(&mut self, r: std::thread::Result<Result<(), Error>>) -> (String, Option<Vec<u8>>) {
+        match r {
+            Ok(Ok(())) => ("ok".to_string(), None),
+            Ok(Err(e)) => (eclass(&e).to_string(), None),
+            Err(_) => {
+                self.panics += 1;
+                ("panic".to_string(), None)
+            }
+        }
+    }
+
+    fn bytes(&mut self, r: std::thread::Result<Result<Vec<u8>, Error>>) -> (String, Option<Vec<u8>>) {
+        match r {
+            Ok(Ok(b)) => ("ok".to_string(), Some(b)),
+            Ok(Err(e)) => (eclass(&e).to_string(), None),
+            Err(_) => {
+                self.panics += 1;
+                ("panic".to_string(), None)
+            }
+        }
+    }
+
+    fn fill(&mut self, i: usize, v: &str) {
+        self.toks[i] = self.toks[i].replace("?", v);
+        self.ctoks[i] = self.ctoks[i].replace("?", v);
+    }
+
+    /// read the pending challenge back before it is lost, if anything observable depended on it
+    fn settle(&mut self) {
+        if let Some(i) = self.pending {
+            if self.ack_since {
+                self.probes += 1;
+                self.exec(&Op::R);
+            }
+            if self.pending.is_some() {
+                // nothing observable depended on it (or the reply failed, which the tie will show): any value will do
+                self.fill(i, "0");
+                self.pending = None;
+            }
+        }
+    }
+
+    /// make the current challenge of ours known (inserting a real reply call if needed)
+    fn learn_our(&mut self) -> Option<u32> {
+        if self.pending.is_some() {
+            self.probes += 1;
+            self.exec(&Op::R);
+        }
+        self.our
+    }
+
+    fn exec(&mut self, op: &Op) {
+        self.exec_as(op, None)
+    }
+
+    /// perform one call; `sym` is its notation in the compact stream when the arguments are one of the fixed letters
+    fn exec_as(&mut self, op: &Op, sym: Option<String>) {
+        match op {
+            Op::B => {
+                let r = catch_unwind(AssertUnwindSafe(|| self.m.begin_connect()));
+                let o = self.unit(r);
+                self.record("B".into(), o, sym);
+            }
+            Op::N => {
+                let r = catch_unwind(AssertUnwindSafe(|| self.m.prepare_send_name()));
+                let o = self.bytes(r);
+                self.record("N".into(), o, sym);
+            }
+            Op::S(b) => {
+                let r = catch_unwind(AssertUnwindSafe(|| self.m.handle_status(b)));
+                let o = self.unit(r);
+                self.record(format!("S:{}", hexarg(b)), o, sym);
+            }
+            Op::C => {
+                let r = catch_unwind(AssertUnwindSafe(|| self.m.prepare_complement()));
+                let o = self.bytes(r);
+                self.record("C".into(), o, sym);
+            }
+            Op::H(b) => {
+                // this call may overwrite a challenge that was not read yet: read it first if an ack depended on it
+                if self.pending.is_some() && self.ack_since {
+                    self.probes += 1;
+                    self.exec(&Op::R);
+                }
+                let r = catch_unwind(AssertUnwindSafe(|| self.m.handle_challenge(b)));
+                let o = self.unit(r);
+                let ok = o.0 == "ok";
+                self.record(format!("H:{}:{}", hexarg(b), if ok { "?" } else { "0" }), o, sym);
+                if ok {
+                    if let Some(i) = self.pending {
+                        // overwritten unread, and nothing observable depended on it: any value will do
+                        self.fill(i, "0");
+                    }
+                    self.pending = Some(self.toks.len() - 1);
+                    self.ack_since = false;
+                    if self.our.is_some() {
+                        self.prev_our = self.our;
+                    }
+                    self.our = None;
+                    // the peer challenge as the harness put it into the message (only used to build arguments)
+                    self.their = if b.len() >= 13 { Some(u32::from_be_bytes([b[9], b[10], b[11], b[12]])) } else { None };
+                }
+            }
+            Op::R => {
+                let r = catch_unwind(AssertUnwindSafe(|| self.m.prepare_challenge_reply()));
+                let o = self.bytes(r);
+                if let Some(bs) = &o.1 {
+                    if bs.len() >= 7 {
+                        let c = u32::from_be_bytes([bs[3], bs[4], bs[5], bs[6]]);
+                        self.our = Some(c);
+                        if let Some(i) = self.pending {
+                            self.fill(i, &c.to_string());
+                            self.pending = None;
+                        }
+                    }
+                }
+                self.record("R".into(), o, sym);
+            }
+            Op::A(b) => {
+                if self.pending.is_some() {
+                    self.ack_since = true;
+                }
+                let r = catch_unwind(AssertUnwindSafe(|| self.m.handle_challenge_ack(b)));
+                let o = self.unit(r);
+                self.record(format!("A:{}", hexarg(b)), o, sym);
+            }
+            Op::D => {
+                self.settle();
+                let r = catch_unwind(AssertUnwindSafe(|| self.m.disconnect()));
+                let o = match r {
+                    Ok(()) => ("ok".to_string(), None),
+                    Err(_) => {
+                        self.panics += 1;
+                        ("panic".to_string(), None)
+                    }
+                };
+                self.record("D".into(), o, sym);
+                if self.our.is_some() {
+                    self.prev_our = self.our;
+                }
+                self.our = None;
+                self.their = None;
+            }
+        }
+    }
+
+    fn finish(&mut self) {
+        self.settle();
+    }
+
+    fn obs(&self, i: usize, compact: bool) -> String {
+        let (cls, b) = &self.outs[i];
+        if !compact {
+            let out = match b {
+                None => cls.clone(),
+                Some(b) => format!("ok:{}", hex(b)),
+            };
+            return format!("{}@{}#{}", out, self.states[i], self.negs[i]);
+        }
+        // compact: k | k:<fnv32 of the bytes> | e-class, state index, negotiated flags in hex
+        let out = match b {
+            None => if cls == "ok" { "k".to_string() } else { cls.clone() },
+            Some(b) => format!("k:{:08x}", fnv32(b)),
+        };
+        let st = STATE_NAMES.iter().position(|n| *n == self.states[i]).map(|p| p.to_string()).unwrap_or_else(|| "?".to_string());
+        let neg = match self.negs[i].parse::<u64>() {
+            Ok(v) => format!("{:x}", v),
+            Err(_) => "-".to_string(),
+        };
+        format!("{}@{}#{}", out, st, neg)
+    }
+
+    fn emit(&mut self, ctx: &mut Ctx, tag: &str, compact: bool, with_spec: bool) {
+        self.finish();
+        let n = self.toks.len();
+        let req = if compact {
+            format!("c04x {} {}", self.cfg.text(), self.ctoks.join(" "))
+        } else {
+            format!("c04run {} {}", self.cfg.text(), self.toks.join(" "))
+        };
+        let res: Vec<String> = (0..n).map(|i| self.obs(i, compact)).collect();
+        ctx.tie(tag, req.trim_end(), &res.join(" "));
+        if with_spec {
+            let chk: Vec<String> = (0..n).map(|i| format!("{}>{}", self.toks[i], self.obs(i, false))).collect();
+            ctx.prop(tag, format!("c04chk {} {}", self.cfg.text(), chk.join(" ")).trim_end(), "ok");
+        }
+        ctx.add("ops_run", n as u64);
+        ctx.add("challenge_readback_calls_inserted", self.probes);
+        if self.panics > 0 {
+            ctx.fail(tag, &format!("panic in {} call(s): {} {}", self.panics, self.cfg.text(), self.toks.join(" ")));
+        }
+        for s in &self.states {
+            ctx.count(&format!("state_{}", s));
+        }
+        for (c, _) in &self.outs {
+            ctx.count(&format!("result_{}", c));
+        }
+        if self.states.iter().any(|s| s == "connected") {
+            ctx.count("sequences_reaching_connected");
+        }
+    }
+}
+
+/* ---------- argument builders (the peer's messages, built by hand, not by the codec under test) ---------- */
+
+fn challenge_msg(flags: u64, chal: u32, creation: u32, name: &[u8]) -> Vec<u8> {
+    let mut v = vec![b'N'];
+    v.extend_from_slice(&flags.to_be_bytes());
+    v.extend_from_slice(&chal.to_be_bytes());
+    v.extend_from_slice(&creation.to_be_bytes());
+    v.extend_from_slice(&(name.len() as u16).to_be_bytes());
+    v.extend_from_slice(name);
+    v
+}
+
+fn status_msg(text: &[u8]) -> Vec<u8> {
+    let mut v = vec![b's'];
+    v.extend_from_slice(text);
+    v
+}
+
+/// a peer that knows `cookie` answering challenge `c` (the digest comes from the code under test; the model
+/// recomputes it with its own MD5, so a wrong digest function shows as a disagreement)
+fn ack_msg(c: u32, cookie: &str) -> Vec<u8> {
+    let mut v = vec![b'a'];
+    v.extend_from_slice(&digest::compute_digest(c, cookie));
+    v
+}
+
+/// symbolic letters: arguments are chosen when the letter is executed (they may depend on what was observed)
+#[derive(Clone, Copy, Debug, PartialEq)]
+enum Sym {
+    B,
+    N,
+    SOk,
+    SNok,
+    C,
+    HValid,
+    HTrunc,
+    R,
+    AValid,
+    AWrong,
+    ATheir,
+    APrev,
+    ATrunc,
+    D,
+}
+
+const ALPHABET: [Sym; 14] = [
+    Sym::B, Sym::N, Sym::SOk, Sym::SNok, Sym::C, Sym::HValid, Sym::HTrunc, Sym::R,
+    Sym::AValid, Sym::AWrong, Sym::ATheir, Sym::APrev, Sym::ATrunc, Sym::D,
+];
+
+const PEER_FLAGS: u64 = 0x0000_000d_07df_7fbd;
+const PEER_CHAL: u32 = 0x0102_0304;
+
+fn exec_sym(run: &mut Run, s: Sym) {
+    let cookie = run.cfg.cookie.clone();
+    match s {
+        Sym::B => run.exec(&Op::B),
+        Sym::N => run.exec(&Op::N),
+        Sym::SOk => run.exec_as(&Op::S(status_msg(b"ok")), Some("So".into())),
+        Sym::SNok => run.exec_as(&Op::S(status_msg(b"nok")), Some("Sn".into())),
+        Sym::C => run.exec(&Op::C),
+        Sym::HValid => run.exec_as(&Op::H(challenge_msg(PEER_FLAGS, PEER_CHAL, 3, b"p@h")), Some("Hv".into())),
+        Sym::HTrunc => {
+            let mut m = challenge_msg(PEER_FLAGS, PEER_CHAL, 3, b"p@h");
+            m.truncate(18);
+            run.exec_as(&Op::H(m), Some("Ht".into()))
+        }
+        Sym::R => run.exec(&Op::R),
+        Sym::AValid => {
+            let c = run.learn_our().unwrap_or(12345);
+            run.exec_as(&Op::A(ack_msg(c, &cookie)), Some(format!("Av:{}", c)))
+        }
+        Sym::AWrong => {
+            let c = run.learn_our().unwrap_or(12345);
+            let mut m = ack_msg(c, &cookie);
+            m[16] ^= 0x01;
+            run.exec_as(&Op::A(m), Some(format!("Aw:{}", c)))
+        }
+        Sym::ATheir => {
+            let c = run.their.unwrap_or(PEER_CHAL);
+            run.exec_as(&Op::A(ack_msg(c, &cookie)), Some(format!("Av:{}", c)))
+        }
+        Sym::APrev => {
+            let c = run.prev_our.unwrap_or(777);
+            run.exec_as(&Op::A(ack_msg(c, &cookie)), Some(format!("Av:{}", c)))
+        }
+        Sym::ATrunc => {
+            let c = run.learn_our().unwrap_or(12345);
+            let mut m = ack_msg(c, &cookie);
+            m.truncate(16);
+            run.exec_as(&Op::A(m), Some(format!("At:{}", c)))
+        }
+        Sym::D => run.exec(&Op::D),
+    }
+}
+
+fn small_cfg() -> Cfg {
+    Cfg { name: "n@h".into(), cookie: "ck".into(), flags: DistributionFlags::DEFAULT.as_u64(), creation: 7 }
+}
+
+/* ---------- pinned corpus ---------- */
+
+fn corpus(ctx: &mut Ctx) {
+    let cfg = Cfg { name: "rust@localhost".into(), cookie: "secret".into(), flags: DistributionFlags::DEFAULT.as_u64(), creation: 1 };
+    use Sym::*;
+    let seqs: Vec<(&str, Vec<Sym>)> = vec![
+        // the handshake as connection.rs performs it
+        ("complete", vec![B, N, SOk, C, HValid, R, AValid]),
+        // complete handshake, disconnect, then the ack of the previous challenge
+        ("stale-ack-after-disconnect", vec![B, N, SOk, C, HValid, R, AValid, D, APrev, B, N, SOk, C, APrev]),
+        // ack before any challenge
+        ("ack-before-challenge", vec![B, N, SOk, C, AValid, APrev, ATheir]),
+        // two challenges, then an ack for the first
+        ("ack-for-first-of-two", vec![B, N, SOk, C, HValid, R, HValid, R, APrev, AValid]),
+        // an ack that is right for the peer's challenge instead of ours
+        ("ack-for-their-challenge", vec![B, N, SOk, C, HValid, R, ATheir, AWrong, ATrunc]),
+        // reuse after disconnect, second handshake succeeds
+        ("reuse", vec![B, N, SOk, C, HValid, R, AValid, D, B, N, SOk, C, HValid, R, AValid, B]),
+        // refusal
+        ("refused", vec![B, N, SNok, C, HTrunc, R, AValid]),
+        // leaving connected without disconnect
+        ("leave-connected", vec![HValid, R, AValid, N, AValid, HValid, AValid, R, AValid, HTrunc, AValid]),
+    ];
+    for (tag, seq) in seqs {
+        let mut run = Run::new(&cfg);
+        for s in &seq {
+            exec_sym(&mut run, *s);
+        }
+        run.emit(ctx, &format!("corpus-{}", tag), false, true);
+        ctx.count("corpus_sequences");
+    }
+    // a peer challenge equal to the challenge this side generated (reflection): read ours, disconnect, and send it back
+    // as the peer's challenge is not possible (ours is fresh per call), so the nearest pinned case is their == previous ours
+    let mut run = Run::new(&cfg);
+    for s in [B, N, SOk, C, HValid, R] {
+        exec_sym(&mut run, s);
+    }
+    if let Some(c) = run.our {
+        run.exec(&Op::H(challenge_msg(PEER_FLAGS, c, 3, b"p@h")));
+        exec_sym(&mut run, R);
+        exec_sym(&mut run, ATheir);
+        exec_sym(&mut run, AValid);
+    }
+    run.emit(ctx, "corpus-their-equals-previous-ours", false, true);
+    ctx.count("corpus_sequences");
+}
+
+/* ---------- findings: the state machine reaches Connected outside the protocol's step order ---------- */
+
+fn findings(ctx: &mut Ctx) {
+    let cfg = small_cfg();
+    use Sym::*;
+    // (1) never began, never sent a name, never saw a status, never sent the reply
+    let mut run = Run::new(&cfg);
+    for s in [HValid, R, HTrunc, AValid] {
+        exec_sym(&mut run, s);
+    }
+    run.finish();
+    let sent_name = run.toks.iter().any(|t| t == "N");
+    if run.m.state().as_str() == "connected" && !sent_name {
+        ctx.fail(
+            "kf-c04-connected-out-of-order",
+            &format!("Connected without begin_connect/prepare_send_name/handle_status: {} {} => {}", cfg.text(), run.toks.join(" "), run.states.join(",")),
+        );
+    }
+    run.emit(ctx, "finding-out-of-order", false, true);
+    // (2) the peer refused (status nok => Err(ConnectionRefused)) but the same machine still goes on to Connected
+    let mut run = Run::new(&cfg);
+    for s in [B, N, SNok, C, HValid, R, AValid] {
+        exec_sym(&mut run, s);
+    }
+    run.finish();
+    if run.outs[2].0 == "e-refused" && run.m.state().as_str() == "connected" {
+        ctx.fail(
+            "kf-c04-connected-after-refusal",
+            &format!("Connected after the peer's refusal status was reported: {} {} => {}", cfg.text(), run.toks.join(" "), run.states.join(",")),
+        );
+    }
+    run.emit(ctx, "finding-after-refusal", false, true);
+}
+
+/* ---------- exhaustive: every sequence over the 14-letter alphabet up to a length ---------- */
+
+fn exhaustive(ctx: &mut Ctx) {
+    let cfg = small_cfg();
+    let max_len = ctx.n(4, 5);
+    let spec_len = ctx.n(3, 4);
+    let k = ALPHABET.len();
+    for len in 1..=max_len {
+        let total = k.pow(len as u32);
+        for idx in 0..total {
+            let mut run = Run::new(&cfg);
+            let mut x = idx;
+            for _ in 0..len {
+                exec_sym(&mut run, ALPHABET[x % k]);
+                x /= k;
+            }
+            run.emit(ctx, "exh", true, len <= spec_len);
+            ctx.count("exhaustive_sequences");
+        }
+        ctx.add("exhaustive", 1);
+    }
+}
+
+/* ---------- seeded random walks ---------- */
+
+fn gen_name(ctx: &mut Ctx) -> String {
+    let len_class = ctx.rng.below(40);
+    let target = match len_class {
+        0 => 1,
+        1 => 254,
+        2 => 255,
+        3 => 256,
+        4 => 300 + ctx.rng.below(400) as usize,
+        _ => 3 + ctx.rng.below(30) as usize,
+    };
+    let multi = ctx.rng.chance(1, 4);
+    let mut s = String::new();
+    let alphabet: [&str; 6] = ["a", "Z", "@", "é", "中", "😀"];
+    while s.len() < target {
+        let c = if multi { *ctx.rng.pick(&alphabet) } else { *ctx.rng.pick(&alphabet[..3]) };
+        if s.len() + c.len() > target {
+            s.push('x');
+        } else {
+            s.push_str(c);
+        }
+    }
+    s
+}
+
+fn gen_cookie(ctx: &mut Ctx) -> String {
+    match ctx.rng.below(8) {
+        0 => String::new(),
+        1 if ctx.rng.chance(1, 4) => "x".repeat(300),
+        2 => "пароль-é中😀".to_string(),
+        3 => "0".to_string(),
+        4 => "12345".to_string(),
+        _ => {
+            let n = 1 + ctx.rng.below(24) as usize;
+            (0..n).map(|_| (b'A' + ctx.rng.below(26) as u8) as char).collect()
+        }
+    }
+}
+
+fn gen_flags(ctx: &mut Ctx) -> u64 {
+    match ctx.rng.below(9) {
+        0 => 0,
+        1 => u64::MAX,
+        2 => DistributionFlags::DEFAULT.as_u64(),
+        3 => DistributionFlags::DEFAULT_HIDDEN.as_u64(),
+        4 => DistributionFlags::MANDATORY_OTP26.as_u64(),
+        5 => ctx.rng.next() & 0xffff_ffff,
+        6 => ctx.rng.next() & 0xffff_ffff_0000_0000,
+        7 => 1u64 << ctx.rng.below(64),
+        _ => ctx.rng.next(),
+    }
+}
+
+fn gen_u32(ctx: &mut Ctx) -> u32 {
+    match ctx.rng.below(8) {
+        0 => 0,
+        1 => 1,
+        2 => u32::MAX,
+        3 => 0x8000_0000,
+        4 => 9,
+        5 => 10,
+        6 => 999_999_999,
+        _ => ctx.rng.next() as u32,
+    }
+}
+
+fn gen_status(ctx: &mut Ctx) -> Vec<u8> {
+    let texts: [&[u8]; 12] = [
+        b"ok", b"ok_simultaneous", b"nok", b"not_allowed", b"alive", b"named:abc", b"", b"OK", b"ok ", b"okk", b"\xff\xfe", b"o",
+    ];
+    let t = *ctx.rng.pick(&texts);
+    match ctx.rng.below(12) {
+        0 => vec![],
+        1 => {
+            let mut v = status_msg(t);
+            v[0] = b'S';
+            v
+        }
+        2 => {
+            // the (wrong) form StatusMessage::encode produces, without the length
+            vec![b's', 0, ctx.rng.below(5) as u8]
+        }
+        _ => status_msg(t),
+    }
+}
+
+fn damage(ctx: &mut Ctx, mut m: Vec<u8>) -> Vec<u8> {
+    match ctx.rng.below(7) {
+        0 => {
+            let n = ctx.rng.below(m.len() as u64 + 1) as usize;
+            m.truncate(n);
+        }
+        1 => {
+            if !m.is_empty() {
+                m[0] = *ctx.rng.pick(&[b'n', b'N', b'a', b'r', b's', b'c', 0u8, 255u8]);
+            }
+        }
+        2 => {
+            if !m.is_empty() {
+                let i = ctx.rng.below(m.len() as u64) as usize;
+                m[i] ^= 1 << ctx.rng.below(8);
+            }
+        }
+        3 => {
+            let n = 1 + ctx.rng.below(5) as usize;
+            m.extend(ctx.rng.bytes(n));
+        }
+        4 => {
+            let n = ctx.rng.below(40) as usize;
+            m = ctx.rng.bytes(n);
+        }
+        5 => {
+            m.clear();
+        }
+        _ => {
+            if m.len() > 1 {
+                m.truncate(m.len() - 1);
+            }
+        }
+    }
+    m
+}
+
+fn gen_challenge_bytes(ctx: &mut Ctx) -> Vec<u8> {
+    let flags = gen_flags(ctx);
+    let chal = gen_u32(ctx);
+    let creation = gen_u32(ctx);
+    let name: Vec<u8> = match ctx.rng.below(24) {
+        0 | 1 => vec![],
+        2 | 3 | 4 => "é中@😀".as_bytes().to_vec(),
+        5 | 6 => vec![b'a', 0xff, b'b'], // not UTF-8
+        7 | 8 => vec![0xe4, 0xb8],       // truncated UTF-8 sequence
+        9 => vec![b'q'; 255 + ctx.rng.below(3) as usize],
+        _ => b"peer@host".to_vec(),
+    };
+    let mut m = challenge_msg(flags, chal, creation, &name);
+    match ctx.rng.below(10) {
+        0 => {
+            // declared name length larger than what follows
+            let l = m.len();
+            let declared = (name.len() as u16).wrapping_add(1 + ctx.rng.below(3) as u16);
+            let at = 17;
+            if l >= 19 {
+                m[at] = (declared >> 8) as u8;
+                m[at + 1] = declared as u8;
+            }
+            m
+        }
+        1 => {
+            // declared name length smaller: the rest is ignored
+            if !name.is_empty() {
+                let declared = (name.len() - 1) as u16;
+                m[17] = (declared >> 8) as u8;
+                m[18] = declared as u8;
+            }
+            m
+        }
+        2 | 3 => damage(ctx, m),
+        4 => {
+            // old-style 'n' challenge: version flags:u32 challenge name
+            let mut v = vec![b'n', 0, 5];
+            v.extend_from_slice(&(flags as u32).to_be_bytes());
+            v.extend_from_slice(&chal.to_be_bytes());
+            v.extend_from_slice(&name);
+            v
+        }
+        _ => m,
+    }
+}
+
+fn random_walk(ctx: &mut Ctx) {
+    let cfg = Cfg { name: gen_name(ctx), cookie: gen_cookie(ctx), flags: gen_flags(ctx), creation: gen_u32(ctx) };
+    ctx.count(if cfg.name.len() > 255 { "cfg_name_over_255" } else { "cfg_name_le_255" });
+    ctx.count(if cfg.cookie.is_empty() { "cfg_cookie_empty" } else if cfg.cookie.is_ascii() { "cfg_cookie_ascii" } else { "cfg_cookie_non_ascii" });
+    let mut run = Run::new(&cfg);
+    let len = 1 + ctx.rng.below(12) as usize;
+    let script = [Sym::B, Sym::N, Sym::SOk, Sym::C, Sym::HValid, Sym::R, Sym::AValid];
+    let mut pos = 0usize;
+    let disciplined = ctx.rng.chance(1, 2);
+    while run.toks.len() < len {
+        let follow = if disciplined { ctx.rng.chance(4, 5) } else { ctx.rng.chance(1, 4) };
+        let sym = if follow {
+            let s = script[pos % script.len()];
+            pos += 1;
+            s
+        } else {
+            *ctx.rng.pick(&ALPHABET)
+        };
+        match sym {
+            Sym::SOk | Sym::SNok => {
+                let b = if ctx.rng.chance(1, 2) { status_msg(if sym == Sym::SOk { b"ok" } else { b"not_allowed" }) } else { gen_status(ctx) };
+                run.exec(&Op::S(b));
+            }
+            Sym::HValid | Sym::HTrunc => {
+                let b = gen_challenge_bytes(ctx);
+                run.exec(&Op::H(b));
+            }
+            Sym::AValid if ctx.rng.chance(1, 4) => {
+                // a damaged form of the right ack
+                let c = run.learn_our().unwrap_or(gen_u32(ctx));
+                let m = damage(ctx, ack_msg(c, &cfg.cookie));
+                run.exec(&Op::A(m));
+            }
+            Sym::AWrong if ctx.rng.chance(1, 2) => {
+                // the right challenge with another cookie
+                let c = run.learn_our().unwrap_or(1);
+                run.exec(&Op::A(ack_msg(c, &format!("{}x", cfg.cookie))));
+            }
+            Sym::D => {
+                run.exec(&Op::D);
+                pos = 0;
+            }
+            s => exec_sym(&mut run, s),
+        }
+    }
+    run.emit(ctx, "gen", false, true);
+    ctx.count(&format!("walk_len_{}", run.toks.len().min(16)));
+}
+
+/* ---------- message codecs ---------- */
+
+fn res_bytes(r: std::thread::Result<Result<Vec<u8>, Error>>) -> (String, Option<Vec<u8>>) {
+    match r {
+        Ok(Ok(b)) => (format!("ok {}", hex(&b)), Some(b)),
+        Ok(Err(e)) => (eclass(&e).to_string(), None),
+        Err(_) => ("panic".to_string(), None),
+    }
+}
+
+fn status_text(s: Status) -> &'static str {
+    match s {
+        Status::Ok => "ok",
+        Status::OkSimultaneous => "ok_simultaneous",
+        Status::Nok => "nok",
+        Status::NotAllowed => "not_allowed",
+        Status::Alive => "alive",
+    }
+}
+
+fn decode_all(ctx: &mut Ctx, tag: &str, b: &[u8]) {
+    let h = hexarg(b);
+    let r = match catch_unwind(|| SendName::decode(b)) {
+        Ok(Ok(m)) => format!("ok {} {} {}", m.flags.as_u64(), m.creation, hex(m.name.as_bytes())),
+        Ok(Err(e)) => eclass(&e).to_string(),
+        Err(_) => "panic".to_string(),
+    };
+    ctx.tie(tag, &format!("c04dec_name {}", h), &r);
+    let r = match catch_unwind(|| StatusMessage::decode(b)) {
+        Ok(Ok(m)) => format!("ok {}", status_text(m.status)),
+        Ok(Err(e)) => eclass(&e).to_string(),
+        Err(_) => "panic".to_string(),
+    };
+    ctx.tie(tag, &format!("c04dec_status {}", h), &r);
+    let r = match catch_unwind(|| Challenge::decode(b)) {
+        Ok(Ok(m)) => format!("ok {} {} {} {}", m.flags.as_u64(), m.challenge, m.creation, hex(m.name.as_bytes())),
+        Ok(Err(e)) => eclass(&e).to_string(),
+        Err(_) => "panic".to_string(),
+    };
+    ctx.tie(tag, &format!("c04dec_chal {}", h), &r);
+    let r = match catch_unwind(|| ChallengeReply::decode(b)) {
+        Ok(Ok(m)) => format!("ok {} {}", m.challenge, hex(&m.digest)),
+        Ok(Err(e)) => eclass(&e).to_string(),
+        Err(_) => "panic".to_string(),
+    };
+    ctx.tie(tag, &format!("c04dec_reply {}", h), &r);
+    let r = match catch_unwind(|| ChallengeAck::decode(b)) {
+        Ok(Ok(m)) => format!("ok {}", hex(&m.digest)),
+        Ok(Err(e)) => eclass(&e).to_string(),
+        Err(_) => "panic".to_string(),
+    };
+    ctx.tie(tag, &format!("c04dec_ack {}", h), &r);
+    ctx.count("codec_decode_inputs");
+}
+
+fn codecs(ctx: &mut Ctx) {
+    let n = ctx.n(150, 1000);
+    for _ in 0..n {
+        let flags = gen_flags(ctx);
+        let creation = gen_u32(ctx);
+        let chal = gen_u32(ctx);
+        let their = gen_u32(ctx);
+        let name = gen_name(ctx);
+        let cookie = gen_cookie(ctx);
+        let nh = hexarg(name.as_bytes());
+        let ch = hexarg(cookie.as_bytes());
+        let mut encoded: Vec<Vec<u8>> = vec![];
+
+        let sn = SendName::new(DistributionFlags::new(flags), creation, name.clone());
+        let (r, b) = res_bytes(catch_unwind(|| sn.encode()));
+        ctx.tie("codec", &format!("c04enc_name {} {} {}", flags, creation, nh), &r);
+        if let Some(b) = b {
+            ctx.prop("codec", &format!("c04p_name_new {} {} {} {}", flags, creation, nh, hex(&b)), "ok");
+            if SendName::decode(&b[2..]).ok().as_ref() != Some(&sn) {
+                ctx.fail("codec", &format!("SendName decode(encode) differs: {}", hex(&b)));
+            }
+            encoded.push(b[2..].to_vec());
+        }
+        let (r, _) = res_bytes(catch_unwind(|| sn.encode_old()));
+        ctx.tie("codec", &format!("c04enc_name_old {} {} {}", flags, creation, nh), &r);
+
+        let cm = Challenge::new(DistributionFlags::new(flags), chal, creation, name.clone());
+        let (r, b) = res_bytes(catch_unwind(|| cm.encode()));
+        ctx.tie("codec", &format!("c04enc_chal {} {} {} {}", flags, chal, creation, nh), &r);
+        if let Some(b) = b {
+            ctx.prop("codec", &format!("c04p_chal {} {} {} {} {}", flags, chal, creation, nh, hex(&b)), "ok");
+            if Challenge::decode(&b[2..]).ok().as_ref() != Some(&cm) {
+                ctx.fail("codec", &format!("Challenge decode(encode) differs: {}", hex(&b)));
+            }
+            encoded.push(b[2..].to_vec());
+        }
+
+        let rp = ChallengeReply::new(chal, their, &cookie);
+        let b = rp.encode();
+        ctx.tie("codec", &format!("c04enc_reply {} {} {}", chal, their, ch), &format!("ok {}", hex(&b)));
+        if ChallengeReply::decode(&b[2..]).ok().as_ref() != Some(&rp) {
+            ctx.fail("codec", &format!("ChallengeReply decode(encode) differs: {}", hex(&b)));
+        }
+        ctx.tie("codec", &format!("c04verify {} {} {}", hex(&rp.digest), their, ch), if rp.verify(their, &cookie) { "true" } else { "false" });
+        ctx.tie("codec", &format!("c04verify {} {} {}", hex(&rp.digest), chal, ch), if rp.verify(chal, &cookie) { "true" } else { "false" });
+        encoded.push(b[2..].to_vec());
+
+        let ak = ChallengeAck::new(chal, &cookie);
+        let b = ak.encode();
+        ctx.tie("codec", &format!("c04enc_ack {} {}", chal, ch), &format!("ok {}", hex(&b)));
+        ctx.prop("codec", &format!("c04p_ack {} {} {}", chal, ch, hex(&b)), "ok");
+        if ChallengeAck::decode(&b[2..]).ok().as_ref() != Some(&ak) {
+            ctx.fail("codec", &format!("ChallengeAck decode(encode) differs: {}", hex(&b)));
+        }
+        let other = format!("{}y", cookie);
+        ctx.tie("codec", &format!("c04verify {} {} {}", hex(&ak.digest), chal, hexarg(other.as_bytes())), if ak.verify(chal, &other) { "true" } else { "false" });
+        encoded.push(b[2..].to_vec());
+
+        ctx.tie("codec", &format!("c04digest {} {}", chal, ch), &hex(&digest::compute_digest(chal, &cookie)));
+
+        encoded.push(status_msg(b"ok"));
+        encoded.push(gen_status(ctx));
+        encoded.push(gen_challenge_bytes(ctx));
+        for e in encoded {
+            decode_all(ctx, "codec", &e);
+            let d = damage(ctx, e);
+            decode_all(ctx, "codec-damaged", &d);
+        }
+    }
+    // every truncation of one message of each kind
+    let cm = challenge_msg(PEER_FLAGS, PEER_CHAL, 3, "p@é".as_bytes());
+    let ak = ack_msg(5, "c");
+    let mut rp = vec![b'r', 0, 0, 0, 9];
+    rp.extend_from_slice(&digest::compute_digest(9, "c"));
+    let mut nm = vec![b'N'];
+    nm.extend_from_slice(&cm[1..9]);
+    nm.extend_from_slice(&cm[13..]);
+    for m in [cm, ak, rp, nm, status_msg(b"ok_simultaneous")] {
+        for k in 0..=m.len() {
+            decode_all(ctx, "codec-truncated", &m[..k]);
+        }
+    }
+    ctx.add("exhaustive", 1);
+
+    // StatusMessage::encode: the accepting side's message; the protocol (and this crate's own decoder) want the text
+    for s in [Status::Ok, Status::OkSimultaneous, Status::Nok, Status::NotAllowed, Status::Alive] {
+        let b = StatusMessage::new(s).encode();
+        ctx.tie("codec", &format!("c04enc_status {}", status_text(s)), &format!("ok {}", hex(&b)));
+        ctx.prop("kf-c04-status-encode", &format!("c04p_status {} {}", hex(status_text(s).as_bytes()), hex(&b)), "ok");
+        match StatusMessage::decode(&b[2..]) {
+            Ok(m) if m.status == s => {}
+            _ => ctx.fail("kf-c04-status-encode", &format!("StatusMessage::decode rejects StatusMessage::encode({}) = {}", status_text(s), hex(&b))),
+        }
+    }
+}
+
+pub fn run(ctx: &mut Ctx) {
+    corpus(ctx);
+    findings(ctx);
+    codecs(ctx);
+    let n = ctx.n(2000, 15000);
+    for _ in 0..n {
+        random_walk(ctx);
+    }
+    exhaustive(ctx);
+}
